@@ -89,7 +89,7 @@ def consts(ctx):
     return {"MaxFrames": 2, "MaxReads": 2}
 
 
-def model(ctx):
+def model(ctx, extra_jobs=()):
     """TLC: the ideal spec satisfies the properties (edges emitted); every deviation is caught by the property it breaks"""
     c = consts(ctx)
     small = {"MaxFrames": 1, "MaxReads": 2}
@@ -98,13 +98,16 @@ def model(ctx):
     for d in DEVS:
         jobs.append(dict(module=MODULE, name="dev" + d, workers=1, expect_violation=True,
                          cfg=R.cfg_text(small, dev=[d], emit=False, invs=INVS, props=PROPS)))
+    extra_jobs = list(extra_jobs)
     big = None
     if not ctx.quick():
         # properties only (no edge emission, no replay) on a larger instance
         big = {"MaxFrames": 3, "MaxReads": 3}
         jobs.append(dict(module=MODULE, name="big", workers=6, heap="16g",
                          cfg=R.cfg_text(big, emit=False, invs=INVS, props=PROPS)))
-    res = R.tlc_many(ctx, jobs)
+    res = R.tlc_many(ctx, jobs + extra_jobs)
+    extra = res[len(jobs):]
+    res = res[:len(jobs)]
     ideal = res[0]
     if ideal.violated:
         raise vf.Infra("ideal Stream spec violates %s (specification error)" % ideal.violated)
@@ -121,7 +124,7 @@ def model(ctx):
         if r.violated != DEV_CAUGHT_BY[d]:
             raise vf.Infra("deviation %s: TLC reported %s, expected a violation of %s (vacuous model?)" % (
                 d, r.violated, DEV_CAUGHT_BY[d]))
-    return c, ideal, caught
+    return c, ideal, caught, extra
 
 
 def dev_relations(ctx, c):
